@@ -217,6 +217,20 @@ class Gen:
             if seqs:
                 self.feat.add("Count")
                 return self.op(r.choice(["Count", "Count", "len"]) if self.method_form == 0 else "Count", self.seq(env, r.choice(seqs)[1], d - 1))
+        if ch < 0.68:
+            # a fold with a two-parameter (not called) lambda: Aggregate(seq, 0, lambda acc, v: acc + f(v))
+            seqs = self.sources(env, ("seq_any",))
+            if seqs:
+                e, s = r.choice(seqs)
+                a = self.fresh(env)
+                inner = dict(env)
+                inner[a] = NUM
+                v = self.fresh(inner)
+                while v == a:
+                    v = v + "_"
+                inner[v] = s[1]
+                self.feat.add("Aggregate-two-parameter-lambda")
+                return call("Aggregate", e, C(0), lam([a, v], ast.BinOp(left=N(a), op=ast.Add(), right=self.num({k: sh for k, sh in inner.items() if k != a or True}, d - 1))))
         if ch < 0.74:
             return ast.IfExp(test=self.boolean(env, d - 1), body=self.num(env, d - 1), orelse=self.num(env, d - 1))
         if ch < 0.84:
